@@ -1,13 +1,32 @@
 #!/bin/bash
-# Builds the whole Coq development (full .vo build, never -vos) and the extracted models. Offline.
+# Builds the Coq development of every claimed property (full .vo build, never -vos) and the
+# extracted models. Offline.
 set -e
 cd "$(dirname "$0")"
 mkdir -p work/gen work/build evidence
 PYTHONPATH=harness /venv/bin/python - <<'PY'
-import sys, common
-ok, out = common.coq_make([], timeout=7000)
+import json, sys, common
+from pathlib import Path
+props = [c["property_id"] for c in json.loads((common.VERIF / "MANIFEST.json").read_text())["checks"]]
+targets = []
+for p in props:
+    for m in ("Props", "Run"):
+        if (common.COQ / p / (m + ".v")).exists():
+            targets.append("%s/%s.vo" % (p, m))
+ok, out = common.coq_make(targets, timeout=7000)
 lines = [l for l in out.splitlines() if not l.startswith(("Closed under", "COQC", "COQDEP", "Axioms:", "  "))]
 print("\n".join(lines[-40:]))
-sys.exit(0 if ok else 1)
+if not ok:
+    sys.exit(1)
+# extracted models (built on demand by the checks too; doing it here keeps the first quick run short)
+for p in props:
+    src = (common.VERIF / "harness" / ("p%s.py" % p)).read_text()
+    if "engine=\"coq\"" in src and "Extracted(" not in src:
+        continue
+    try:
+        common.Extracted(p)
+        print("extracted", p)
+    except Exception as e:      # a property whose harness does not use the extracted model
+        print("no extraction for", p, "-", str(e)[:200].replace("\n", " "))
 PY
 echo "coq build ok"
